@@ -137,6 +137,10 @@ class Gen:
             else:
                 body = pub_fields(body)
             self.count("R4")
+        if "static_refs" in o:
+            # a const's elided reference lifetime is 'static; Verus wants it spelled out
+            body = re.sub(r"&(?!')", "&'static ", body.split("=", 1)[0]) + "=" + body.split("=", 1)[1]
+            self.count("R3-static")
         if "rename" in o:
             body = re.sub(r"\b%s\b" % re.escape(it.name), o["rename"], body, count=1)
         if not re.match(r"\s*pub\b", body):
